@@ -34,6 +34,8 @@ func init() {
 }
 
 func runC10(c *an.Ctx) {
+	c.Inf("C10-R5", "pooled buffers", token.NoPos, "%d Pool.Get sites of byte buffers / string builders in the access code checked for Reset-before-use",
+		sharedPoolBufferReset(c, "C10-R5", "access.", "dnssvc/internal/ratelimitmw."))
 	sharedErrorsAs(c, "C10-R2", 1, "dnssvc/internal/ratelimitmw.")
 	if n := sharedLoopCompleteness(c, "C10-R5", "backendpb.", "access.", "dnssvc/internal/ratelimitmw."); n > 0 {
 		c.Ok("C10-R5", "element-wise loops", token.NoPos, "%d range loops of the access-list conversion and matching code examined: no element ends a scan early", n)
